@@ -41,6 +41,10 @@
 # define H_ONE crypto_auth_hmacsha256
 # define H_VERIFY crypto_auth_hmacsha256_verify
 # define K_EXTRACT crypto_kdf_hkdf_sha256_extract
+# define K_EXTRACT_STATE crypto_kdf_hkdf_sha256_state
+# define K_EXTRACT_INIT crypto_kdf_hkdf_sha256_extract_init
+# define K_EXTRACT_UPDATE crypto_kdf_hkdf_sha256_extract_update
+# define K_EXTRACT_FINAL crypto_kdf_hkdf_sha256_extract_final
 # define K_EXPAND crypto_kdf_hkdf_sha256_expand
 #elif ALG == 512
 # define B 128
@@ -54,6 +58,10 @@
 # define H_ONE crypto_auth_hmacsha512
 # define H_VERIFY crypto_auth_hmacsha512_verify
 # define K_EXTRACT crypto_kdf_hkdf_sha512_extract
+# define K_EXTRACT_STATE crypto_kdf_hkdf_sha512_state
+# define K_EXTRACT_INIT crypto_kdf_hkdf_sha512_extract_init
+# define K_EXTRACT_UPDATE crypto_kdf_hkdf_sha512_extract_update
+# define K_EXTRACT_FINAL crypto_kdf_hkdf_sha512_extract_final
 # define K_EXPAND crypto_kdf_hkdf_sha512_expand
 #else
 # define B 128
@@ -139,6 +147,15 @@ VERIF_MAIN
         size_t  n = 0;
         spec_hmac(sprk, in.key, KLEN, in.m, MLEN, NULL, 0, NULL, 0);
         CHECK(K_EXTRACT(prk, in.key, KLEN, in.m, MLEN) == 0 && v_eq(prk, sprk, HL), "HKDF-Extract = HMAC(salt, ikm)");
+        {
+            /* streaming extract: init(salt) / update(ikm[0..a)) / update(rest) / final == one-shot */
+            K_EXTRACT_STATE xs;
+            uint8_t         prk2[HL];
+            CHECK(K_EXTRACT_INIT(&xs, in.key, KLEN) == 0, "extract_init");
+            CHECK(K_EXTRACT_UPDATE(&xs, in.m, MLEN / 2) == 0, "extract_update");
+            CHECK(K_EXTRACT_UPDATE(&xs, in.m + MLEN / 2, MLEN - MLEN / 2) == 0, "extract_update");
+            CHECK(K_EXTRACT_FINAL(&xs, prk2) == 0 && v_eq(prk2, sprk, HL), "streaming HKDF-Extract = HMAC(salt, ikm)");
+        }
         for (ctr = 1; n < OUTLEN; ctr++) {
             spec_hmac(t, prk, HL, ctr == 1 ? NULL : sout + n - HL, ctr == 1 ? 0 : HL, in.ctx, CTXLEN, &ctr, 1);
             memcpy(sout + n, t, HL);
